@@ -267,6 +267,21 @@ def shift_inline_swap(rnd, m):
             m2["shifts"][sid] = r.pop("inline")
             r["shift"] = sid
             n += 1
+    for g in m2.get("groups", []):
+        # the same on a resource group (its members inherit the hours either way; seeded change C15-d ignored inherited
+        # shift references)
+        if g.get("shift") and rnd.random() < 0.6:
+            sid = g.pop("shift")
+            g["inline"] = m2["shifts"][sid]
+            extra = list(m2.get("shift_leaves", {}).get(sid, []))
+            if extra:
+                g["leaves"] = list(g.get("leaves", [])) + extra
+            n += 1
+        elif g.get("inline") and rnd.random() < 0.6:
+            sid = "xg%d" % len(m2["shifts"])
+            m2["shifts"][sid] = g.pop("inline")
+            g["shift"] = sid
+            n += 1
     return m2, n
 
 
